@@ -95,20 +95,19 @@ def compare(ctx, smis, seeds, set_programs=None):
             progfile = f.name
     # read - perturb - read histories (c19_worker.PERTURB) on a rotating fifth of the molecules (all of them for small sets)
     pmod = [5, ctx_seed(ctx) % 5] if len(smis) > 8 else [1, 0]
-    with tempfile.NamedTemporaryFile('w', suffix='.json', delete=False, dir=str(VERIF / 'harness')) as f:
-        json.dump({'smiles': smis, 'queries': QUERIES, 'variations': False, 'set_programs_file': progfile, 'perturb_mod': pmod}, f)
-        spec = f.name
-    with tempfile.NamedTemporaryFile('w', suffix='.json', delete=False, dir=str(VERIF / 'harness')) as f:
-        json.dump({'smiles': smis, 'queries': QUERIES, 'variations': True, 'rng': ctx_seed(ctx), 'set_programs_file': progfile,
-                   'perturb_mod': pmod}, f)
-        spec_var = f.name
+    specs = []
+    for idx in range(len(seeds)):
+        # history / copy variations are seed independent: the workers share them (molecule index mod number of workers)
+        with tempfile.NamedTemporaryFile('w', suffix='.json', delete=False, dir=str(VERIF / 'harness')) as f:
+            json.dump({'smiles': smis, 'queries': QUERIES, 'variations': True, 'variation_mod': [len(seeds), idx],
+                       'rng': ctx_seed(ctx), 'set_programs_file': progfile, 'perturb_mod': pmod}, f)
+            specs.append(f.name)
     try:
         with ThreadPoolExecutor(len(seeds)) as ex:
-            # history / copy variations are seed independent: only the first worker runs them
-            results = list(ex.map(lambda a: run_worker(a[1], spec_var if a[0] == 0 else spec), enumerate(seeds)))
+            results = list(ex.map(lambda a: run_worker(a[1], specs[a[0]]), enumerate(seeds)))
     finally:
-        os.unlink(spec)
-        os.unlink(spec_var)
+        for sp in specs:
+            os.unlink(sp)
         if progfile:
             os.unlink(progfile)
     digests = [next((r['set_digests'] for r in res if 'set_digests' in r), None) for res in results]
